@@ -41,6 +41,8 @@ struct Result
   std::uint64_t preempt_in_cs = 0; // switches away from a fiber that held a mutex
   std::uint64_t interleaving_hash = 0; // hash of the sequence (fiber, sync-op kind, object id)
   unsigned tsan_reports = 0;
+  unsigned locks_held_at_end = 0; // mutexes still owned when all fibers had finished
+  std::uint64_t alloc_faults_fired = 0;
   bool deadlock = false;
   bool step_bound = false;
   std::string detail;
@@ -69,6 +71,12 @@ int current_fiber();
 
 // number of ThreadSanitizer reports since the process started
 unsigned tsan_report_count();
+
+// allocation faults in the concurrent engine: the k-th allocation performed by `fiber` from now on
+// throws std::bad_alloc (the replaced operator new lives in the uninstrumented scheduler TU)
+void arm_alloc_fault(int fiber, long k);
+void disarm_alloc_fault();
+bool alloc_fault_fired();
 
 // explicit scheduling point for harness code running inside a fiber
 void yield_here(unsigned kind, void const *obj);
